@@ -180,8 +180,63 @@ def verify_function(c: Contract, timeout_s: float = 10.0, solve: bool = True) ->
     rep.calls_by_contract = ex.calls_by_contract
     rep.inlined = ex.inlined
     if solve:
-        for o in rep.obligations:
-            o.result = smt.prove(o.pc, o.goal, timeout_s=min(timeout_s, 5.0) if o.must_fail else timeout_s,
-                                 portfolio=not o.must_fail)
+        solve_all(rep.obligations, timeout_s)
     rep.seconds = time.time() - t0
     return rep
+
+
+def _solve_one(o: Obligation, timeout_s: float) -> Any:
+    expected_to_fail = o.must_fail or getattr(o, "finding", None) is not None
+    return smt.prove(o.pc, o.goal, timeout_s=min(timeout_s, 3.0) if expected_to_fail else timeout_s,
+                     portfolio=not expected_to_fail)
+
+
+def solve_all(obls: List[Obligation], timeout_s: float, nproc: int = 0) -> None:
+    """Discharge obligations; large batches are split over forked children (z3 terms are not picklable, a forked
+    child inherits them).  Children report status/backend/time; models of refuted obligations are recomputed here."""
+    import json
+    import os
+    n = len(obls)
+    if nproc <= 0:
+        nproc = min(int(os.environ.get("PYVC_SOLVER_PROCS", "8")), max(1, n // 25))
+    if nproc <= 1 or n < 50:
+        for o in obls:
+            o.result = _solve_one(o, timeout_s)
+        return
+    chunks = [list(range(i, n, nproc)) for i in range(nproc)]
+    kids = []
+    for ch in chunks:
+        r, w = os.pipe()
+        pid = os.fork()
+        if pid == 0:
+            os.close(r)
+            out = []
+            try:
+                for i in ch:
+                    res = _solve_one(obls[i], timeout_s)
+                    out.append([i, res.status, res.backend, res.seconds, res.reason[:200]])
+            except BaseException as e:  # pragma: no cover
+                out.append([-1, "error", repr(e), 0.0, ""])
+            with os.fdopen(w, "w") as f:
+                json.dump(out, f)
+            os._exit(0)
+        os.close(w)
+        kids.append((pid, r))
+    for pid, r in kids:
+        with os.fdopen(r) as f:
+            data = f.read()
+        os.waitpid(pid, 0)
+        try:
+            rows = json.loads(data)
+        except Exception:
+            rows = []
+        for i, status, backend, secs, reason in rows:
+            if i < 0:
+                continue
+            if status == "sat" and not obls[i].must_fail:
+                obls[i].result = _solve_one(obls[i], timeout_s)   # need the model here
+            else:
+                obls[i].result = smt.Result(status, backend, secs, reason=reason)
+    for o in obls:
+        if o.result is None:
+            o.result = _solve_one(o, timeout_s)
